@@ -28,7 +28,7 @@ M0 == [run |-> "", kind |-> "", shim |-> "program", tls |-> FALSE, ctls |-> FALS
        phase |-> "greet", inb |-> << >>, q |-> << >>, ob |-> << >>, unfl |-> 0, cur |-> 0,
        reg |-> << >>, lost |-> FALSE, free |-> FALSE, fault |-> FALSE, eof |-> FALSE, dead |-> "", token |-> -1,
        quit |-> FALSE, enc |-> FALSE, raw |-> << >>, hsdone |-> FALSE, blocked |-> FALSE,
-       floats |-> << >>, n |-> Stats0, done |-> FALSE, panics |-> << >>, wpanic |-> FALSE, ever |-> {}]
+       floats |-> << >>, n |-> Stats0, done |-> FALSE, panics |-> << >>, wpanic |-> FALSE, ever |-> {}, eintr |-> FALSE]
 
 Init == l = 1 /\ m = M0 /\ viol = {}
 
@@ -42,7 +42,7 @@ NoLong == [x \in {} |-> << >>]
 
 \* ---- command queue entries ----
 Entry(msg, cls) == [p |-> msg.p, seq |-> msg.seqN, consec |-> msg.consec, cls |-> cls, st |-> "new",
-                    prog |-> << >>, ret |-> "", bin |-> FALSE, exp |-> [ok |-> FALSE], npv |-> 0, at |-> 0, unbound |-> FALSE]
+                    prog |-> << >>, ret |-> "", bin |-> FALSE, exp |-> [ok |-> FALSE], npv |-> 0, at |-> 0, unbound |-> FALSE, skip |-> 0]
 HsCls == [kind |-> "hs", cb |-> "auth", arg |-> << >>, judge |-> FALSE, reply |-> TRUE, fatal |-> FALSE]
 SslReqCls == [kind |-> "sslreq", cb |-> "", arg |-> << >>, judge |-> FALSE, reply |-> FALSE, fatal |-> FALSE]
 
@@ -135,6 +135,10 @@ AfterMsgs(ob, M, used) == IF used = 0 THEN ob ELSE IF used < Len(M) THEN From(ob
                           \* position after the last packet of message `used`
                           LET sp == Split(ob) IN From(ob, sp.next)
 
+\* over TLS the login must be answered exactly as over plaintext (C18)
+TlsToo(mm, at, vs) == vs \cup (IF mm.enc /\ mm.ctls /\ vs # {}
+                               THEN {V("C18", at, "the login over TLS is not answered as over plaintext (reply kind / code / sequence id)")} ELSE {})
+
 \* result of judging the head entry e against messages M: [done, used, viol, floats, lost]
 \*   done = FALSE: response not complete yet (only acceptable while the server is still working)
 JudgeReply(mm, e, M, at) ==
@@ -144,12 +148,12 @@ JudgeReply(mm, e, M, at) ==
      IF ~d.ok THEN [done |-> d.why \notin Incomplete, used |-> 0, floats |-> << >>, lost |-> d.why \notin Incomplete,
                     viol |-> IF d.why \in Incomplete THEN {} ELSE {V("C11", at, "handshake reply undecodable: " \o d.why)}, why |-> d.why]
      ELSE [done |-> TRUE, used |-> 1, floats |-> << >>, lost |-> FALSE,
-           viol |-> (IF e.ret = "ok"
+           viol |-> TlsToo(mm, at, (IF e.ret = "ok"
                      THEN (IF d.u.k # "ok" THEN {V("C11", at, "accepted authentication not answered with OK")} ELSE {})
                      ELSE (IF d.u.k # "err" THEN {V("C11", at, "rejected authentication not answered with ERR")}
                            ELSE IF d.u.code # 1045 \/ d.u.state # <<50, 56, 48, 48, 48>> THEN {V("C11", at, "rejection is not ERR 1045/28000")} ELSE {}))
                     \cup (IF M[1].seq0 # (e.seq + 1) % 256 THEN {V("C11", at, "handshake reply does not carry the next sequence id")} ELSE {})
-                    \cup SeqViol(M, 1, e.seq, at)]
+                    \cup SeqViol(M, 1, e.seq, at))]
   ELSE IF c.kind = "ping" THEN
      LET d == DecUnit(M, 1) IN
      IF ~d.ok THEN [done |-> d.why \notin Incomplete, used |-> 0, floats |-> << >>, lost |-> d.why \notin Incomplete,
@@ -319,7 +323,10 @@ Step ==
             /\ m' = [m EXCEPT !.blocked = TRUE]
             /\ UNCHANGED viol
        [] e.e \in {"rd_err", "wr_err", "fl_err"} ->
-            /\ m' = [m EXCEPT !.fault = TRUE, !.dead = IF @ = "" THEN "transport fault" ELSE @]
+            \* EINTR is not a failure of the transport: the server may retry (then the stream must stay intact and
+            \* everything is judged as usual) or give up with an error (then it is treated like a fault at the end)
+            /\ m' = IF "kind" \in DOMAIN e /\ e.kind = "Interrupted" THEN [m EXCEPT !.eintr = TRUE]
+                    ELSE [m EXCEPT !.fault = TRUE, !.dead = IF @ = "" THEN "transport fault" ELSE @]
             /\ UNCHANGED viol
        [] e.e = "tls_fail" ->
             /\ m' = [m EXCEPT !.lost = TRUE]
@@ -363,6 +370,8 @@ Step ==
                         unb == r # 0 /\ mm.reg[r].np > 0 /\ mm.reg[r].types = << >> /\ Len(q.p) >= 11 + ((mm.reg[r].np + 7) \div 8)
                                /\ q.p[11 + ((mm.reg[r].np + 7) \div 8)] = 0
                     IN /\ m' = [mm EXCEPT !.q[i].st = "disp", !.q[i].bin = (c.kind = "execute"), !.q[i].exp = exp, !.q[i].at = l, !.q[i].unbound = unb,
+                                          \* the shim may fetch the k-th parameter first (Iterator::nth / skip) and walk on from there
+                                          !.q[i].skip = IF "skip" \in DOMAIN e THEN e.skip ELSE 0,
                                           !.cur = i, !.n.cbs = @ + 1,
                                           \* a malformed parameter block: this execution's parameters are not judged and the types
                                           \* bound for this statement are unknown from here on (until a well-formed rebind); everything
@@ -429,7 +438,7 @@ Step ==
                      isok == e.ret.k = "ok"
                      r == IF q.cls.kind = "execute" THEN RegFind(m.reg, q.cls.arg) ELSE 0
                      \* all declared parameters must have been delivered (C08)
-                     pvv == IF q.cls.kind = "execute" /\ q.exp.ok /\ ~m.lost /\ ~m.free /\ q.npv # Len(q.exp.vals) /\ e.ret.k # "panic"
+                     pvv == IF q.cls.kind = "execute" /\ q.exp.ok /\ ~m.lost /\ ~m.free /\ q.npv # (IF q.skip >= Len(q.exp.vals) THEN 0 ELSE Len(q.exp.vals) - q.skip) /\ e.ret.k # "panic"
                             THEN {V("C08", l, "number of parameters delivered differs from the number declared")}
                                  \cup (IF ~q.exp.rebind THEN {V("C16", l, "an execution that re-uses bound types did not receive all its parameters")} ELSE {})
                             ELSE {}
@@ -489,10 +498,13 @@ Step ==
                                              ELSE @]
                /\ viol' = viol \cup vs
        [] e.e = "end" ->
-            LET r0 == Consume(Advance(m), viol, l, TRUE)
+            LET m0 == IF m.eintr /\ e.result # "ok" THEN [m EXCEPT !.fault = TRUE, !.dead = IF @ = "" THEN "transport fault" ELSE @] ELSE m
+                r0 == Consume(Advance(m0), viol, l, TRUE)
                 mm == r0.m
                 res == e.result
-                clean == mm.eof /\ mm.inb = << >> /\ FirstNew(mm.q) = 0 /\ mm.phase # "greet" /\ mm.hsdone
+                \* the client closed the connection at a command boundary (whether the server served what it had
+                \* received is another matter: C02/C12)
+                clean == mm.eof /\ mm.inb = << >> /\ mm.phase # "greet" /\ mm.hsdone
                 expectOk == mm.dead = "" /\ (mm.quit \/ clean)
                 vres ==
                   IF res = "panic" THEN
@@ -501,6 +513,9 @@ Step ==
                       ELSE IF mm.dead = "shim callback failed" \/ mm.wpanic THEN {V("C19", l, "a failing shim callback ended in a panic instead of an error return at " \o e.site)}
                       ELSE {V("C20", l, "run_on panicked at " \o e.site)})
                   ELSE IF res \in {"livelock", "timeout"} THEN {V("C20", l, "run_on did not terminate")}
+                  \* (the outcome rule for a clean end does not depend on how the replies looked)
+                  ELSE IF mm.lost /\ ~mm.free /\ mm.dead = "" /\ ~mm.fault /\ ~mm.blocked /\ clean /\ res = "err"
+                       THEN {V("C19", l, "run_on returned an error although the client closed the connection at a command boundary and nothing had failed")}
                   ELSE IF mm.lost \/ mm.free THEN {}
                   ELSE IF mm.dead # "" THEN
                     (IF res = "ok" THEN {V(DeadTag(mm.dead), l, "run_on returned Ok although: " \o mm.dead)}
